@@ -169,6 +169,9 @@ func buildRequest(c Case, r Req, full bool) (*http.Request, middleware.RoutePara
 	} else {
 		req = httptest.NewRequest(http.MethodPost, target, nil)
 	}
+	if r.PreParsed {
+		_ = req.ParseForm()
+	}
 	for i, d := range c.Decls {
 		if d.In != "header" {
 			continue
